@@ -146,11 +146,40 @@ impl Sc {
 
 pub struct C08;
 
+/// One directory with 65535-131072 short-named files, all reaching the action: the invocation
+/// pending at the end holds tens of thousands of paths (65536 of them, in one case).
+fn gen_many_paths(rng: &mut Rng) -> Sc {
+    let mut spec = tree::TreeSpec::default();
+    spec.nodes.push(tree::Node::Dir { path: "t".into() });
+    spec.nodes.push(tree::Node::Dir { path: "t/b".into() });
+    spec.bulk.push(tree::Bulk { dir: "t/b".into(), count: *rng.pick(&[65_535usize, 65_536, 65_536, 65_537, 131_072]), kind: tree::BulkKind::File });
+    let find = FindScenario::new(spec, vec![]);
+    let mut sc = Sc {
+        find,
+        starts: vec![rng.pick(&["t", "t/b"]).to_string()],
+        sorted: rng.chance(1, 2),
+        depth: false,
+        tests: vec!["-type".into(), "f".into()],
+        mindepth: None,
+        maxdepth: None,
+        execdir: rng.chance(1, 2),
+        fixed: if rng.chance(1, 2) { vec!["-a".into()] } else { vec![] },
+        place: Place::Plain,
+        quit_name: None,
+        second: None,
+    };
+    sc.render();
+    sc
+}
+
 impl Property for C08 {
     const ID: &'static str = "C08";
     type Sc = Sc;
 
     fn generate(rng: &mut Rng, _tier: Tier) -> Sc {
+        if rng.chance(1, 2500) {
+            return gen_many_paths(rng);
+        }
         let tight = rng.chance(2, 5);
         let nroots = rng.small(1, 3);
         let roots: Vec<String> = ["t", "u", "v"][..nroots].iter().map(|s| s.to_string()).collect();
@@ -323,6 +352,10 @@ impl Property for C08 {
         }
         rep.executions += 1;
         account_find(&obs, rep);
+        if sc.find.tree.bulk.iter().any(|b| b.count >= 65_535) {
+            rep.probe("more_than_65535_paths_in_one_directory");
+            rep.want_sample = false;
+        }
         if sc.execdir {
             rep.probe("execdir");
         }
